@@ -53,6 +53,43 @@ def attempt(fn):
         return "crash", e
 
 
+def attempt_isolated(fn):
+    """attempt() in a forked child: a hyperparameter that slips through validation can reach compiled code and kill the
+    process (segmentation fault); the parent then reports ('crash', description) instead of dying with it."""
+    import os, pickle
+    r, w = os.pipe()
+    pid = os.fork()
+    if pid == 0:
+        os.close(r)
+        try:
+            status, res = attempt(fn)
+            payload = (status, None if status == "ok" else (type(res).__name__ + ": " + str(res))[:300] if res is not None else None)
+        except BaseException as e:                    # noqa
+            payload = ("crash", f"{type(e).__name__}: {e}"[:300])
+        try:
+            os.write(w, pickle.dumps(payload))
+        finally:
+            os._exit(0)
+    os.close(w)
+    data = b""
+    while True:
+        chunk = os.read(r, 65536)
+        if not chunk:
+            break
+        data += chunk
+    os.close(r)
+    _, code = os.waitpid(pid, 0)
+    if os.WIFSIGNALED(code) or not data:
+        return "crash", RuntimeError(f"the process was killed by signal {os.WTERMSIG(code) if os.WIFSIGNALED(code) else '?'} "
+                                     f"(a native crash in compiled code)")
+    status, msg = pickle.loads(data)
+    if status == "ok":
+        return "ok", None
+    if status == "rejected":
+        return "rejected", ValueError(msg)
+    return status, RuntimeError(msg) if msg else None
+
+
 def describe(status, e):
     if status in ("rejected", "crash"):
         return f"{type(e).__name__}: {re.sub(r'0x[0-9A-Fa-f]+', '0x..', ' '.join(str(e).split()))[:140]}"
@@ -142,6 +179,23 @@ def check_case(rep, st, case):
                 no_fitted_model(rep, st, est, cls, off, rid, what, replay, c)
             elif case["expect"] == "accept" and status == "ok" and not hasattr(est, "labels_"):
                 violation(rep, st, cls, off, rid, "no-labels-after-fit", f"{what}: fit returned without labels_", replay)
+            if case["expect"] == "reject" and kind == "one" and st.counts[f"refit:{cls}:{off}"] < 2:
+                st.counts[f"refit:{cls}:{off}"] += 1        # two rejected representatives per (class, parameter)
+                # the same out-of-domain value reaching an estimator that has ALREADY been fitted once (set_params between two
+                # fits): validation must happen at every fit, not only at the first one
+                with params.quiet():
+                    est2 = params.make(cls, None, c)
+                st0, _ = attempt(lambda: params.fit_tiny(est2, c))
+                if st0 == "ok":
+                    try:
+                        with params.quiet():
+                            est2.set_params(**{o: getattr(est, o) for o in off.split(",") if o})
+                        status2, res2 = attempt_isolated(lambda: params.fit_tiny(est2, c))
+                    except Exception as e_:
+                        status2, res2 = "raised", e_             # set_params itself refused the value: also a rejection
+                    st.counts["refit"] += 1
+                    rep.case((cls, "refit", off, rid))
+                    judge(rep, st, cls, off, rid + ":refit", "reject", status2, res2, what + " [after a first valid fit + set_params]", replay)
         elif ent["kind"] == "gemini":
             status, res = attempt(lambda: params.make(cls, asg, c, default=kind == "default"))
             judge(rep, st, cls, off, rid, case["expect"], status, res, what, replay)
